@@ -292,7 +292,7 @@ def gen_problem(rng, cfg, zero_resid=None):
         c = z + 0.5 * rng.normal(size=n)
         rad = float(np.linalg.norm(z - c) + rng.uniform(0.3, 1.0))
         proj = [['ball', hx(c), hx(rad)]]
-        if rng.random() < 0.4:
+        if spec.get('lo') is None and rng.random() < 0.6:      # at most two user sets + box: Dykstra is slow in pure Python
             a = rng.normal(size=n)
             proj.append(['halfspace', hx(a), hx(float(a.dot(z)) + rng.uniform(0.3, 1.0) * float(np.linalg.norm(a)))])
         spec['proj'] = proj
@@ -379,6 +379,8 @@ def make_spec(seed, i, j):
     spec['rhoend'] = hx(float(rng.choice([1e-8, 1e-6, 1e-4, 1e-2])))
     if cfg == 'reg':
         params['func_tol.max_iters'] = int(rng.choice([30, 60]))
+    if cfg == 'proj' and rng.random() < 0.5:
+        params['dykstra.max_iters'] = 30
     if cfg not in ('scaled',) and spec.get('lo') is None and rng.random() < 0.3:
         spec['rhobeg'] = hx(float(rng.choice([1e-3, 1e-2, 3.0, 10.0])))
         if float(unhx(spec['rhobeg'])) <= float(unhx(spec['rhoend'])):
@@ -466,7 +468,7 @@ def make_spec(seed, i, j):
 
 
 def tasks(seed, tier):
-    ntasks, per = (48, 10) if tier == 'quick' else (320, 30)
+    ntasks, per = (60, 8) if tier == 'quick' else (400, 24)
     return [dict(seed=int(seed), i=i, count=per, tier=tier) for i in range(ntasks)]
 
 
